@@ -313,17 +313,17 @@ Proof.
   destruct (blit_ok (num s) (out ++ [0]) b) as (b' & -> & Hl' & Ht' & Htd).
   { rewrite len_app, len_cons, len_nil. lia. }
   rewrite len_app, len_cons, len_nil in Htd.
+  replace (num s + (len out + (0 + 1))) with (num s + len out + 1) in Htd by lia.
   assert (Hc : take (num s) b = content s) by (unfold content; now rewrite Hbuf).
   rewrite Hc in Htd. rewrite app_assoc in Htd.
   assert (Hlc : len (content s ++ out) = num s + len out)
     by (rewrite len_app, inv_content_len; auto).
   eexists. split; [reflexivity|]. split; [apply inv_mk; lia|]. split.
   - rewrite content_mk.
-    rewrite <- (take_take_le (num s + len out) (num s + (len out + 0 + 1)) b') by lia.
+    rewrite <- (take_take_le (num s + len out) (num s + len out + 1) b') by lia.
     rewrite Htd. rewrite <- Hlc. apply take_app_exact.
   - apply terminated_mk; [lia|].
-    apply (get_of_take _ _ (content s ++ out)); [|assumption].
-    rewrite <- Htd. f_equal. lia.
+    apply (get_of_take _ _ (content s ++ out)); assumption.
 Qed.
 
 Lemma catv_good s out sc : inv s -> fits s (len out + 1) ->
@@ -345,17 +345,18 @@ Proof.
     pose proof (setm__spec s0 (num s + (len out + 1)) sc Hi0 ltac:(cbn; lia) ltac:(lia)) as R.
     destruct (setm_ s0 (num s + (len out + 1)) sc) as [[[rc s1] sc1] e] eqn:Hs.
     unfold setm_result in R. destruct R as [(-> & He & Hi1 & Hn1 & Hm1 & Hk1) | (-> & He & ->)].
-    + cbn [Z.eqb A_SUCCESS]. cbn [num mem] in Hn1, Hm1, Hk1. split_inv Hi1.
+    + cbn [Z.eqb A_SUCCESS]. unfold s0 in Hn1, Hm1, Hk1. cbn [num mem] in Hn1, Hm1, Hk1. split_inv Hi1.
       rewrite wsub_small by lia.
       destruct (vsn_fits s1 out Hi1 ltac:(lia)) as (b2 & -> & Hi2 & Hc2 & Ht2).
       destruct (Hnum (num s1)) as [-> | ?]; [|lia].
       do 4 eexists. split; [reflexivity|]. split; [assumption|]. rewrite He.
       split; [reflexivity|]. split; [|assumption]. rewrite Hc2. f_equal.
-      rewrite <- Hc0. apply (reserve_content s0 s1); auto; cbn [num mem]; lia.
+      rewrite <- Hc0. apply (reserve_content s0 s1); auto; unfold s0; cbn [num mem]; lia.
     + cbn. do 4 eexists. split; [reflexivity|]. split; [assumption|]. rewrite He. auto.
   - (* fits in the spare room: one pass *)
     destruct (vsn_fits s out Hi ltac:(lia)) as (b2 & -> & Hi2 & Hc2 & Ht2).
-    destruct (Hnum (num s)) as [-> | ?]; [|lia].
+    replace (if 0 <? len out then num s + len out else num s) with (num s + len out)
+      by (destruct (0 <? len out) eqn:?; lia).
     do 4 eexists. split; [reflexivity|]. split; [assumption|]. cbn [any_failed existsb]. auto.
 Qed.
 
@@ -410,3 +411,769 @@ Proof.
   intros Hp Hb Hn. unfold exit_orig. rewrite Hp. unfold put.
   replace (num s <? len b) with false by lia. reflexivity.
 Qed.
+
+(* ------------------------------------------------------------------ a_str_getc_ / a_str_getc *)
+Definition getc_post (term : bool) (s : str) (r : Z) (s' : str) : Prop :=
+  (content s = [] /\ r = (-1)%Z /\ s' = s) \/
+  (exists c0 x, content s = c0 ++ [x] /\ r = schar x /\ content s' = c0 /\ num s' < num s /\
+                (term = true -> terminated s')).
+
+Lemma getc__good s : inv s -> p_good (getc_ s) (getc_post false s).
+Proof.
+  intros Hi. split_inv Hi. unfold getc_, p_good, getc_post.
+  destruct (num s =? 0) eqn:E.
+  - do 2 eexists. split; [reflexivity|]. split; [assumption|]. left.
+    unfold content. replace (num s) with 0 by lia. auto.
+  - rewrite wsub_small by lia.
+    destruct (inv_ptr s Hi ltac:(lia)) as (b & Hp & Hb & Hbuf). rewrite Hp.
+    destruct (get_lt (num s - 1) b ltac:(lia)) as (c & Hg). rewrite Hg.
+    do 2 eexists. split; [reflexivity|]. split; [apply inv_mk; lia|]. right.
+    exists (take (num s - 1) b), c. repeat split; cbn [num]; try lia; try discriminate.
+    unfold content. rewrite Hbuf. replace (num s) with (num s - 1 + 1) at 1 by lia.
+    apply take_succ. assumption.
+Qed.
+
+Lemma getc_good s : inv s -> p_good (getc s) (getc_post true s).
+Proof.
+  intros Hi. split_inv Hi. unfold getc, p_good, getc_post.
+  destruct (num s =? 0) eqn:E.
+  - do 2 eexists. split; [reflexivity|]. split; [assumption|]. left.
+    unfold content. replace (num s) with 0 by lia. auto.
+  - rewrite wsub_small by lia.
+    destruct (inv_ptr s Hi ltac:(lia)) as (b & Hp & Hb & Hbuf). rewrite Hp.
+    destruct (get_lt (num s - 1) b ltac:(lia)) as (c & Hg). rewrite Hg.
+    destruct (put_ok (num s - 1) 0 b ltac:(lia)) as (b' & -> & Hl' & Ht' & Hg').
+    do 2 eexists. split; [reflexivity|]. split; [apply inv_mk; lia|]. right.
+    exists (take (num s - 1) b), c. split; [|split; [reflexivity|split; [|split]]].
+    + unfold content. rewrite Hbuf. replace (num s) with (num s - 1 + 1) at 1 by lia.
+      apply take_succ. assumption.
+    + rewrite content_mk. assumption.
+    + cbn [num]. lia.
+    + intros _. apply terminated_mk; [lia|assumption].
+Qed.
+
+(* ------------------------------------------------------------------ a_str_getn_ / a_str_getn *)
+Definition getn_post (term want : bool) (nbyte : N) (s : str) (r : N * list N) (s' : str) : Prop :=
+  let k := N.min nbyte (num s) in
+  r = (k, if want then drop (num s - k) (content s) else []) /\
+  content s' = take (num s - k) (content s) /\ num s' = num s - k /\
+  (term = true -> 0 < k -> terminated s').
+
+Lemma drop_content s b k : buf s = b -> k <= num s -> num s <= len b ->
+  take k (drop (num s - k) b) = drop (num s - k) (content s).
+Proof.
+  intros Hb Hk Hn. unfold content. rewrite Hb, take_drop_comm. do 2 f_equal. lia.
+Qed.
+
+Lemma getn__good s want nbyte : inv s -> p_good (getn_ s want nbyte) (getn_post false want nbyte s).
+Proof.
+  intros Hi. split_inv Hi. unfold getn_, p_good, getn_post.
+  set (nb := if num s <? nbyte then num s else nbyte).
+  assert (Hnb : nb = N.min nbyte (num s)) by (unfold nb; destruct (num s <? nbyte) eqn:?; lia).
+  rewrite <- Hnb. clearbody nb.
+  destruct (nb =? 0) eqn:E.
+  - assert (nb = 0) as -> by lia. rewrite N.sub_0_r.
+    do 2 eexists. split; [reflexivity|]. split; [assumption|].
+    rewrite drop_all by (rewrite inv_content_len; auto; lia).
+    rewrite take_all by (rewrite inv_content_len; auto; lia).
+    destruct want; repeat split; discriminate.
+  - rewrite wsub_small by lia.
+    assert (Hc : take (num s - nb) (buf s) = take (num s - nb) (content s))
+      by (unfold content; rewrite take_take_le by lia; reflexivity).
+    destruct want.
+    + destruct (inv_ptr s Hi ltac:(lia)) as (b & Hp & Hb & Hbuf). rewrite Hp.
+      rewrite sub_ok by lia.
+      do 2 eexists. split; [reflexivity|]. split; [apply inv_mk; lia|].
+      rewrite content_mk, <- Hbuf. split; [|split; [assumption|split; [reflexivity|discriminate]]].
+      f_equal. rewrite Hbuf. apply drop_content; auto; lia.
+    + do 2 eexists. split; [reflexivity|]. split; [unfold inv, buf in *; cbn; repeat split; lia|].
+      split; [reflexivity|]. split; [exact Hc|split; [reflexivity|discriminate]].
+Qed.
+
+Lemma getn_good s want nbyte : inv s -> p_good (getn s want nbyte) (getn_post true want nbyte s).
+Proof.
+  intros Hi. split_inv Hi. unfold getn, p_good, getn_post.
+  set (nb := if num s <? nbyte then num s else nbyte).
+  assert (Hnb : nb = N.min nbyte (num s)) by (unfold nb; destruct (num s <? nbyte) eqn:?; lia).
+  rewrite <- Hnb. clearbody nb.
+  destruct (nb =? 0) eqn:E.
+  - assert (nb = 0) as -> by lia. rewrite N.sub_0_r.
+    do 2 eexists. split; [reflexivity|]. split; [assumption|].
+    rewrite drop_all by (rewrite inv_content_len; auto; lia).
+    rewrite take_all by (rewrite inv_content_len; auto; lia).
+    destruct want; repeat split; lia.
+  - rewrite wsub_small by lia.
+    destruct (inv_ptr s Hi ltac:(lia)) as (b & Hp & Hb & Hbuf). rewrite Hp.
+    assert (Hc : take (num s - nb) b = take (num s - nb) (content s))
+      by (unfold content; rewrite Hbuf, take_take_le by lia; reflexivity).
+    destruct (put_ok (num s - nb) 0 b ltac:(lia)) as (b' & Hput & Hl' & Ht' & Hg').
+    assert (Hd : (if want then sub (num s - nb) nb b else Some []) =
+                 Some (if want then drop (num s - nb) (content s) else [])).
+    { destruct want; [|reflexivity]. rewrite sub_ok by lia. f_equal. apply drop_content; auto; lia. }
+    rewrite Hd, Hput.
+    do 2 eexists. split; [reflexivity|]. split; [apply inv_mk; lia|].
+    split; [reflexivity|]. rewrite content_mk, Ht'. split; [assumption|]. split; [reflexivity|].
+    intros _ _. apply terminated_mk; [lia|assumption].
+Qed.
+
+(* ------------------------------------------------------------------ trim family *)
+Lemma rtrim_loop_spec set b : forall fuel n, n <= len b -> fuel = N.to_nat n ->
+  exists n', rtrim_loop fuel set b n = Some n' /\ n' <= n /\
+             take n' b = rstrip (inset set) (take n b).
+Proof.
+  induction fuel as [|f IH]; intros n Hn Hf; cbn [rtrim_loop].
+  - assert (n = 0) as -> by lia. exists 0. repeat split; lia.
+  - destruct (n =? 0) eqn:E.
+    + assert (n = 0) as -> by lia. exists 0. repeat split; lia.
+    + destruct (get_lt (n - 1) b ltac:(lia)) as (c & Hg). rewrite Hg.
+      assert (Ht : take n b = take (n - 1) b ++ [c]).
+      { replace n with (n - 1 + 1) at 1 by lia. now apply take_succ. }
+      rewrite Ht, rstrip_snoc. destruct (inset set c).
+      * destruct (IH (n - 1) ltac:(lia) ltac:(lia)) as (n' & -> & Hle & Hs).
+        exists n'. repeat split; [lia|assumption].
+      * exists n. repeat split; [lia|]. assumption.
+Qed.
+
+Definition trim_post (f : list N -> list N) (s : str) (_ : unit) (s' : str) : Prop :=
+  content s' = f (content s) /\ num s' <= num s /\ mem s' = mem s.
+
+Lemma rtrim__good s set : inv s -> p_good (rtrim_ s set) (trim_post (rstrip (inset set)) s).
+Proof.
+  intros Hi. split_inv Hi. unfold rtrim_, p_good, trim_post.
+  destruct (num s =? 0) eqn:E.
+  - do 2 eexists. split; [reflexivity|]. split; [assumption|].
+    unfold content. replace (num s) with 0 by lia. repeat split; lia.
+  - destruct (inv_ptr s Hi ltac:(lia)) as (b & Hp & Hb & Hbuf). rewrite Hp.
+    destruct (rtrim_loop_spec set b (N.to_nat (num s)) (num s) ltac:(lia) eq_refl) as (n' & -> & Hle & Hs).
+    do 2 eexists. split; [reflexivity|]. split; [apply inv_mk; lia|].
+    rewrite content_mk. unfold content. rewrite Hbuf. repeat split; [assumption|cbn [num]; lia].
+Qed.
+
+Lemma ltrim__good s set : inv s -> p_good (ltrim_ s set) (trim_post (lstrip (inset set)) s).
+Proof.
+  intros Hi. split_inv Hi. unfold ltrim_, p_good, trim_post.
+  destruct (num s =? 0) eqn:E.
+  - do 2 eexists. split; [reflexivity|]. split; [assumption|].
+    unfold content. replace (num s) with 0 by lia. repeat split; lia.
+  - destruct (inv_ptr s Hi ltac:(lia)) as (b & Hp & Hb & Hbuf). rewrite Hp.
+    rewrite sub_ok by lia. rewrite drop_0.
+    assert (Hc : take (num s) b = content s) by (unfold content; now rewrite Hbuf).
+    rewrite Hc. destruct (lcount_spec set (content s)) as (Hd & Hle).
+    rewrite inv_content_len in Hle by assumption.
+    set (i := lcount set (content s)) in *.
+    destruct (i =? 0) eqn:Ei.
+    + do 2 eexists. split; [reflexivity|]. split; [assumption|].
+      rewrite <- Hd. replace i with 0 by lia. repeat split; lia.
+    + rewrite wsub_small by lia. rewrite sub_ok by lia.
+      set (moved := take (num s - i) (drop i b)).
+      assert (Hlm : len moved = num s - i) by (unfold moved; rewrite len_take, len_drop; lia).
+      destruct (blit_ok 0 moved b ltac:(lia)) as (b' & -> & Hl' & _ & Htd).
+      do 2 eexists. split; [reflexivity|]. split; [apply inv_mk; lia|].
+      rewrite content_mk. repeat split; cbn [num mem]; try lia.
+      rewrite N.add_0_l, take_0, app_nil_l, Hlm in Htd. rewrite Htd.
+      unfold moved. rewrite take_drop_comm. replace (i + (num s - i)) with (num s) by lia.
+      rewrite Hc. exact Hd.
+Qed.
+
+Lemma term_if_shorter_good old s1 : inv s1 -> old <= mem s1 ->
+  p_good (term_if_shorter old s1)
+         (fun _ s' => content s' = content s1 /\ num s' = num s1 /\ mem s' = mem s1 /\
+                      (num s1 < old -> terminated s')).
+Proof.
+  intros Hi Ho. split_inv Hi. unfold term_if_shorter, p_good.
+  destruct (num s1 <? old) eqn:E.
+  - destruct (inv_ptr s1 Hi ltac:(lia)) as (b & Hp & Hb & Hbuf). rewrite Hp.
+    destruct (put_ok (num s1) 0 b ltac:(lia)) as (b' & -> & Hl' & Ht' & Hg').
+    do 2 eexists. split; [reflexivity|]. split; [apply inv_mk; lia|].
+    rewrite content_mk, Ht'. unfold content. rewrite Hbuf.
+    split; [reflexivity|]. split; [reflexivity|]. split; [reflexivity|].
+    intros _. apply terminated_mk; [lia|assumption].
+  - do 2 eexists. split; [reflexivity|]. split; [assumption|].
+    split; [reflexivity|]. split; [reflexivity|]. split; [reflexivity|]. lia.
+Qed.
+
+Definition trimT_post (f : list N -> list N) (s : str) (_ : unit) (s' : str) : Prop :=
+  content s' = f (content s) /\ num s' <= num s /\ (num s' < num s -> terminated s').
+
+Lemma with_term_good (g : str -> pres unit) f s :
+  inv s -> p_good (g s) (trim_post f s) ->
+  p_good (match g s with None => None | Some (_, s1) => term_if_shorter (num s) s1 end)
+         (trimT_post f s).
+Proof.
+  intros Hi (r & s1 & -> & Hi1 & Hc & Hn & Hm). split_inv Hi.
+  destruct (term_if_shorter_good (num s) s1 Hi1 ltac:(lia)) as (r2 & s2 & -> & Hi2 & Hc2 & Hn2 & Hm2 & Ht2).
+  do 2 eexists. split; [reflexivity|]. split; [assumption|]. unfold trimT_post.
+  rewrite Hc2, Hn2. split; [assumption|]. split; [assumption|]. exact Ht2.
+Qed.
+
+Lemma rtrim_good s set : inv s -> p_good (rtrim s set) (trimT_post (rstrip (inset set)) s).
+Proof. intros Hi. apply (with_term_good (fun s => rtrim_ s set)); auto using rtrim__good. Qed.
+
+Lemma ltrim_good s set : inv s -> p_good (ltrim s set) (trimT_post (lstrip (inset set)) s).
+Proof. intros Hi. apply (with_term_good (fun s => ltrim_ s set)); auto using ltrim__good. Qed.
+
+Lemma trim__good s set : inv s ->
+  p_good (trim_ s set) (trim_post (fun c => lstrip (inset set) (rstrip (inset set) c)) s).
+Proof.
+  intros Hi. unfold trim_.
+  destruct (rtrim__good s set Hi) as (r & s1 & -> & Hi1 & Hc1 & Hn1 & Hm1).
+  destruct (ltrim__good s1 set Hi1) as (r2 & s2 & -> & Hi2 & Hc2 & Hn2 & Hm2).
+  do 2 eexists. split; [reflexivity|]. split; [assumption|]. unfold trim_post.
+  rewrite Hc2, Hc1. repeat split; lia.
+Qed.
+
+Lemma trim_good s set : inv s ->
+  p_good (trim s set) (trimT_post (fun c => lstrip (inset set) (rstrip (inset set) c)) s).
+Proof. intros Hi. apply (with_term_good (fun s => trim_ s set)); auto using trim__good. Qed.
+
+(* ------------------------------------------------------------------ a_str_setn / a_str_setn_ *)
+Lemma take_add a k l : a <= len l -> take (a + k) l = take a l ++ take k (drop a l).
+Proof.
+  intros H. rewrite <- (take_drop a l) at 1.
+  rewrite take_app_ge by (rewrite len_take; lia). rewrite len_take. do 2 f_equal. lia.
+Qed.
+
+Lemma setn_resized s n : inv s -> n <= mem s ->
+  inv (mkStr (ptr s) n (mem s)) /\ resized n (content s) (content (mkStr (ptr s) n (mem s))).
+Proof.
+  intros Hi Hn. split_inv Hi. split; [unfold inv, buf in *; cbn; auto|].
+  unfold resized. rewrite inv_content_len by assumption. unfold content. cbn [num].
+  change (buf (mkStr (ptr s) n (mem s))) with (buf s).
+  destruct (n <=? num s) eqn:E.
+  - rewrite take_take_le by lia. reflexivity.
+  - exists (take (n - num s) (drop (num s) (buf s))). split.
+    + rewrite len_take, len_drop. lia.
+    + replace n with (num s + (n - num s)) at 1 by lia. apply take_add. lia.
+Qed.
+
+(* ------------------------------------------------------------------ comparison *)
+Definition bufo (p : option (list N)) : list N := match p with Some b => b | None => [] end.
+
+Lemma lex_cmp_nil_l c : lex_cmp [] c = lencmp 0 (len c).
+Proof.
+  destruct c; [reflexivity|]. cbn [lex_cmp]. unfold lencmp. rewrite len_cons.
+  replace (len c + 1 <? 0) with false by lia. replace (0 <? len c + 1) with true by lia. reflexivity.
+Qed.
+Lemma lex_cmp_nil_r c : lex_cmp c [] = lencmp (len c) 0.
+Proof.
+  destruct c; [reflexivity|]. cbn [lex_cmp]. unfold lencmp. rewrite len_cons.
+  replace (len c + 1 <? 0) with false by lia. replace (0 <? len c + 1) with true by lia. reflexivity.
+Qed.
+
+Lemma cmp__spec p0 n0 p1 n1 :
+  n0 <= len (bufo p0) -> n1 <= len (bufo p1) ->
+  cmp_ p0 n0 p1 n1 = Some (lex_cmp (take n0 (bufo p0)) (take n1 (bufo p1))).
+Proof.
+  intros H0 H1. unfold cmp_.
+  destruct p0 as [a|]; [destruct p1 as [b|]|]; cbn [bufo] in *.
+  - set (k := if n0 <? n1 then n0 else n1).
+    assert (Hk : k = N.min n0 n1) by (unfold k; destruct (n0 <? n1) eqn:?; lia).
+    rewrite !sub_ok by lia. rewrite !drop_0. f_equal.
+    rewrite lex_cmp_memcmp. cbn zeta.
+    assert (L0 : len (take n0 a) = n0) by (rewrite len_take; lia).
+    assert (L1 : len (take n1 b) = n1) by (rewrite len_take; lia).
+    rewrite L0, L1.
+    assert (Hkk : Nat.min (length (take n0 a)) (length (take n1 b)) = N.to_nat k)
+      by (unfold len in L0, L1; lia).
+    rewrite Hkk. change (firstn (N.to_nat k) ?l) with (take k l).
+    rewrite !take_take_le by lia. destruct (memcmp (take k a) (take k b) =? 0)%Z; reflexivity.
+  - rewrite len_nil in H1. replace n1 with 0 by lia. rewrite take_0, lex_cmp_nil_r, len_take.
+    do 2 f_equal. lia.
+  - rewrite len_nil in H0. replace n0 with 0 by lia. rewrite take_0, lex_cmp_nil_l, len_take.
+    destruct p1; cbn [bufo] in *; do 2 f_equal; lia.
+Qed.
+
+Lemma cmp_spec l r : inv l -> inv r -> cmp l r = Some (lex_cmp (content l) (content r)).
+Proof.
+  intros Hl Hr. split_inv Hl. split_inv Hr. unfold cmp. apply cmp__spec; unfold bufo, buf in *; lia.
+Qed.
+
+Lemma cmpn_spec s d : inv s -> cmpn s d = Some (lex_cmp (content s) d).
+Proof.
+  intros Hs. split_inv Hs. unfold cmpn. rewrite cmp__spec; unfold bufo, buf in *; try lia.
+  rewrite (take_all (len d) d) by lia. reflexivity.
+Qed.
+
+(* ================================================================== the machine *)
+Lemma sel_upd t s sc m : sel t (upd t s sc m) = s.
+Proof. destruct t; reflexivity. Qed.
+Lemma oth_upd t s sc m : oth t (upd t s sc m) = oth t m.
+Proof. destruct t; reflexivity. Qed.
+Lemma abs_upd t s sc m : abs (upd t s sc m) = aupd t (content s) (abs m).
+Proof. destruct t; reflexivity. Qed.
+Lemma minv_upd t s sc m : minv m -> inv s -> minv (upd t s sc m).
+Proof. intros [? ?] ?. destruct t; split; assumption. Qed.
+Lemma minv_sel t m : minv m -> inv (sel t m).
+Proof. intros [? ?]. destruct t; assumption. Qed.
+Lemma minv_oth t m : minv m -> inv (oth t m).
+Proof. intros [? ?]. destruct t; assumption. Qed.
+Lemma asel_abs t m : asel t (abs m) = content (sel t m).
+Proof. destruct t; reflexivity. Qed.
+Lemma aoth_abs t m : aoth t (abs m) = content (oth t m).
+Proof. destruct t; reflexivity. Qed.
+Lemma aupd_same t m : aupd t (content (sel t m)) (abs m) = abs m.
+Proof. destruct t; unfold abs, aupd; cbn; reflexivity. Qed.
+Lemma asel_aupd t c a : asel t (aupd t c a) = c.
+Proof. destruct t; reflexivity. Qed.
+Lemma aoth_aupd t c a : aoth t (aupd t c a) = aoth t a.
+Proof. destruct t; reflexivity. Qed.
+
+(* an appending operation, lifted to the machine *)
+Lemma step_append t m (x : ares Z) (okret failret : Z) (d : list N) (term : bool) :
+  minv m ->
+  a_good (sel t m) x
+         (fun r s' => r = okret /\ content s' = content (sel t m) ++ d /\ (term = true -> terminated s'))
+         (fun r => r = failret) ->
+  exists m' r e, lift_a t m x = (m', RInt r, e) /\ minv m' /\
+    (if any_failed e then abs m' = abs m /\ r = failret
+     else r = okret /\ abs m' = aupd t (asel t (abs m) ++ d) (abs m) /\
+          (term = true -> terminated (sel t m'))).
+Proof.
+  intros Hm (r & s' & sc' & e & -> & Hi' & HP). unfold lift_a.
+  do 3 eexists. split; [reflexivity|]. split; [now apply minv_upd|].
+  rewrite abs_upd, sel_upd, asel_abs. destruct (any_failed e).
+  - destruct HP as [-> ->]. split; [apply aupd_same|reflexivity].
+  - destruct HP as (-> & -> & ?). auto.
+Qed.
+
+Lemma a_good_weaken {A} s (x : ares A) (P P' : A -> str -> Prop) Q :
+  (forall r s', P r s' -> P' r s') -> a_good s x P Q -> a_good s x P' Q.
+Proof.
+  intros H (r & s' & sc' & e & -> & Hi & HP). do 4 eexists. split; [reflexivity|]. split; [assumption|].
+  destruct (any_failed e); auto.
+Qed.
+
+(* a pure operation, lifted *)
+Lemma step_pure {A} t m (x : pres A) (f : A -> ret) P :
+  minv m -> p_good x P ->
+  exists a s', lift_p t m f x = (upd t s' (sch m) m, f a, []) /\ inv s' /\ P a s'.
+Proof.
+  intros Hm (r & s' & -> & Hi' & HP). unfold lift_p. eauto.
+Qed.
+
+Ltac finish_append Hm G :=
+  let m1 := fresh "m1" in let r1 := fresh "r1" in let e1 := fresh "e1" in
+  let Hx := fresh "Hx" in let Hm1 := fresh "Hm1" in let HP := fresh "HP" in
+  destruct (step_append _ _ _ _ _ _ _ Hm G) as (m1 & r1 & e1 & Hx & Hm1 & HP);
+  rewrite Hx; intros [= <- <- <-];
+  split; [exact Hm1|];
+  split;
+  [ split; [discriminate|]; destruct (any_failed e1);
+    [ destruct HP as [-> ->]; split; reflexivity
+    | destruct HP as (-> & -> & _); split; reflexivity ]
+  | unfold step_terminates; cbn [term_target]; try exact I;
+    intros Hnf _; rewrite Hnf in HP; destruct HP as (_ & _ & HT); apply HT; reflexivity ].
+
+Theorem step_good o m m' r e :
+  minv m -> op_ok o m -> step o m = (m', r, e) ->
+  minv m' /\ step_refines o m m' r e /\ step_terminates o m m' e.
+Proof.
+  intros Hm Hok. pose proof (minv_sel) as Hsel. pose proof (minv_oth) as Hoth.
+  destruct o; cbn [step op_ok] in *.
+  - (* dtor *)
+    unfold dtor. destruct (ptr (sel t m)); intros [= <- <- <-];
+      (split; [apply minv_upd; [assumption|apply inv_init]|]);
+      (split; [|exact I]); (split; [discriminate|]); cbn [any_failed existsb ev_failed orb];
+      cbn [spec_ok]; rewrite abs_upd; split; reflexivity.
+  - (* swap *)
+    intros [= <- <- <-]. destruct Hm as [HA HB].
+    split; [split; assumption|]. split; [|exact I]. split; [discriminate|]. cbn. split; reflexivity.
+  - (* exit *)
+    destruct (ptr (sel t m)) as [b0|] eqn:Ep.
+    + destruct (exit_good (sel t m) (sch m) b0 (Hsel t m Hm) Hok Ep) as (r0 & s' & sc' & e0 & -> & Hi' & HP).
+      intros [= <- <- <-]. split; [now apply minv_upd|]. split; [|exact I]. split; [discriminate|].
+      rewrite abs_upd. destruct (any_failed e0).
+      * destruct HP as [-> ->]. split; [apply aupd_same|reflexivity].
+      * destruct HP as (-> & blk & -> & Ht & _). cbn [spec_ok]. rewrite Ep.
+        exists blk. rewrite asel_abs, inv_content_len by auto. auto.
+    + rewrite exit_null by assumption. intros [= <- <- <-].
+      split; [apply minv_upd; [assumption|apply inv_init]|]. split; [|exact I]. split; [discriminate|].
+      cbn [any_failed existsb spec_ok]. rewrite Ep. split; [reflexivity|].
+      rewrite abs_upd. rewrite <- (aupd_same t m) at 2. f_equal.
+      specialize (Hsel t m Hm). destruct Hsel as (? & ? & Hl). unfold content, buf in *. rewrite Ep in *.
+      rewrite take_nil. symmetry. apply take_nil.
+  - (* setm *)
+    destruct (setm_spec (sel t m) m0 (sch m) (Hsel t m Hm) ltac:(lia)) as [R _].
+    destruct (setm (sel t m) m0 (sch m)) as [[[rc s1] sc1] e1]. intros [= <- <- <-].
+    destruct R as [(-> & He & Hi1 & Hn1 & Hm1 & Hk1) | (-> & He & ->)].
+    + split; [now apply minv_upd|]. split; [|exact I]. split; [discriminate|]. rewrite He.
+      cbn [spec_ok]. split; [reflexivity|]. rewrite abs_upd. rewrite <- (aupd_same t m) at 2. f_equal.
+      apply reserve_content; auto. destruct (Hsel t m Hm) as (? & ? & ?). destruct Hi1 as (? & ? & ?). lia.
+    + split; [apply minv_upd; auto|]. split; [|exact I]. split; [discriminate|]. rewrite He.
+      split; [|reflexivity]. rewrite abs_upd. apply aupd_same.
+  - (* setm_ *)
+    destruct Hok as [Hok1 Hok2].
+    pose proof (setm__spec (sel t m) m0 (sch m) (Hsel t m Hm) Hok2 ltac:(lia)) as R.
+    destruct (setm_ (sel t m) m0 (sch m)) as [[[rc s1] sc1] e1]. intros [= <- <- <-].
+    destruct R as [(-> & He & Hi1 & Hn1 & Hm1 & Hk1) | (-> & He & ->)].
+    + split; [now apply minv_upd|]. split; [|exact I]. split; [discriminate|]. rewrite He.
+      cbn [spec_ok]. split; [reflexivity|]. rewrite abs_upd. rewrite <- (aupd_same t m) at 2. f_equal.
+      apply reserve_content; auto. destruct (Hsel t m Hm) as (? & ? & ?). destruct Hi1 as (? & ? & ?). lia.
+    + split; [apply minv_upd; auto|]. split; [|exact I]. split; [discriminate|]. rewrite He.
+      split; [|reflexivity]. rewrite abs_upd. apply aupd_same.
+  - (* setn *)
+    unfold setn. destruct (n <=? mem (sel t m)) eqn:E; intros [= <- <- <-].
+    + destruct (setn_resized (sel t m) n (Hsel t m Hm) ltac:(lia)) as [Hi' Hr].
+      split; [now apply minv_upd|]. split; [|exact I]. split; [discriminate|].
+      cbn [any_failed existsb spec_ok]. rewrite E, abs_upd, asel_aupd, aoth_aupd, asel_abs. auto.
+    + split; [apply minv_upd; auto|]. split; [|exact I]. split; [discriminate|].
+      cbn [any_failed existsb spec_ok]. rewrite E, abs_upd. split; [reflexivity|apply aupd_same].
+  - (* setn_ *)
+    intros [= <- <- <-]. unfold setn_.
+    destruct (setn_resized (sel t m) n (Hsel t m Hm) Hok) as [Hi' Hr].
+    split; [now apply minv_upd|]. split; [|exact I]. split; [discriminate|].
+    cbn [any_failed existsb spec_ok]. rewrite abs_upd, asel_aupd, aoth_aupd, asel_abs. auto.
+  - (* getc *)
+    destruct (step_pure t m _ RInt _ Hm (getc_good (sel t m) (Hsel t m Hm))) as (a & s' & -> & Hi' & HP).
+    intros [= <- <- <-]. split; [now apply minv_upd|]. unfold step_terminates; cbn [term_target]; rewrite sel_upd.
+    destruct HP as [(Hc & -> & ->) | (c0 & x & Hc & -> & Hc' & Hn' & HT)].
+    + split; [|intros _ [H|H]; [discriminate|lia]]. split; [discriminate|].
+      cbn [any_failed existsb spec_ok]. left. rewrite asel_abs, abs_upd. auto using aupd_same.
+    + split; [|intros _ _; auto]. split; [discriminate|].
+      cbn [any_failed existsb spec_ok]. right. exists c0, x. rewrite asel_abs, abs_upd, Hc'. auto.
+  - (* getc_ *)
+    destruct (step_pure t m _ RInt _ Hm (getc__good (sel t m) (Hsel t m Hm))) as (a & s' & -> & Hi' & HP).
+    intros [= <- <- <-]. split; [now apply minv_upd|]. split; [|exact I].
+    destruct HP as [(Hc & -> & ->) | (c0 & x & Hc & -> & Hc' & Hn' & HT)].
+    + split; [discriminate|].
+      cbn [any_failed existsb spec_ok]. left. rewrite asel_abs, abs_upd. auto using aupd_same.
+    + split; [discriminate|].
+      cbn [any_failed existsb spec_ok]. right. exists c0, x. rewrite asel_abs, abs_upd, Hc'. auto.
+  - (* catc *)
+    pose proof (catc_good (sel t m) c (sch m) (Hsel t m Hm) Hok) as G.
+    apply (a_good_weaken _ _ _ (fun r s' => r = c /\ content s' = content (sel t m) ++ [uchar c] /\
+                                           (true = true -> terminated s'))) in G; [|intuition].
+    finish_append Hm G.
+  - (* catc_ *)
+    pose proof (catc__good (sel t m) c (sch m) (Hsel t m Hm) Hok) as G.
+    apply (a_good_weaken _ _ _ (fun r s' => r = c /\ content s' = content (sel t m) ++ [uchar c] /\
+                                           (false = true -> terminated s'))) in G;
+      [|intuition discriminate].
+    finish_append Hm G.
+  - (* getn *)
+    destruct (step_pure t m _ (fun x => RSize (fst x) (snd x)) _ Hm
+                        (getn_good (sel t m) want n (Hsel t m Hm))) as (a & s' & -> & Hi' & HP).
+    intros [= <- <- <-]. split; [now apply minv_upd|]. unfold step_terminates; cbn [term_target]; rewrite sel_upd.
+    destruct HP as (-> & Hc' & Hn' & HT). cbn [fst snd].
+    split.
+    + split; [discriminate|]. cbn [any_failed existsb spec_ok].
+      rewrite asel_abs, abs_upd, inv_content_len, Hc' by auto. auto.
+    + intros _ [H|H]; [discriminate|]. apply HT; [reflexivity|lia].
+  - (* getn_ *)
+    destruct (step_pure t m _ (fun x => RSize (fst x) (snd x)) _ Hm
+                        (getn__good (sel t m) want n (Hsel t m Hm))) as (a & s' & -> & Hi' & HP).
+    intros [= <- <- <-]. split; [now apply minv_upd|]. split; [|exact I].
+    destruct HP as (-> & Hc' & Hn' & HT). cbn [fst snd].
+    split; [discriminate|]. cbn [any_failed existsb spec_ok].
+    rewrite asel_abs, abs_upd, inv_content_len, Hc' by auto. auto.
+  - (* catn *)
+    destruct (catn_good (sel t m) d (sch m) (Hsel t m Hm) Hok) as [G _].
+    apply (a_good_weaken _ _ _ (fun r s' => r = A_SUCCESS /\ content s' = content (sel t m) ++ d /\
+                                           (true = true -> terminated s'))) in G; [|intuition].
+    finish_append Hm G.
+  - (* catn_ *)
+    destruct (catn__good (sel t m) d (sch m) (Hsel t m Hm) Hok) as [G _].
+    apply (a_good_weaken _ _ _ (fun r s' => r = A_SUCCESS /\ content s' = content (sel t m) ++ d /\
+                                           (false = true -> terminated s'))) in G;
+      [|intuition discriminate].
+    finish_append Hm G.
+  - (* cats *)
+    pose proof (cats_good (sel t m) d (sch m) (Hsel t m Hm) Hok) as G.
+    apply (a_good_weaken _ _ _ (fun r s' => r = A_SUCCESS /\ content s' = content (sel t m) ++ cstr d /\
+                                           (true = true -> terminated s'))) in G; [|intuition].
+    finish_append Hm G.
+  - (* cats_ *)
+    pose proof (cats__good (sel t m) d (sch m) (Hsel t m Hm) Hok) as G.
+    apply (a_good_weaken _ _ _ (fun r s' => r = A_SUCCESS /\ content s' = content (sel t m) ++ cstr d /\
+                                           (false = true -> terminated s'))) in G;
+      [|intuition discriminate].
+    finish_append Hm G.
+  - (* cat *)
+    unfold cat.
+    assert (G : a_good (sel t m) (cat_gen true (sel t m) (if self then None else Some (oth t m)) (sch m))
+                  (fun r s' => r = A_SUCCESS /\
+                               content s' = content (sel t m) ++ (if self then asel t (abs m) else aoth t (abs m)) /\
+                               (true = true -> terminated s'))
+                  (fun r => r = A_OMEMORY)).
+    { eapply a_good_weaken; [|apply cat_gen_good; auto].
+      - intros r0 s' (? & ? & ?). rewrite asel_abs, aoth_abs. destruct self; auto.
+      - intros o Ho. destruct self; [discriminate|]. injection Ho as <-. auto.
+      - destruct self; exact Hok. }
+    finish_append Hm G.
+  - (* cat_ *)
+    unfold cat_.
+    assert (G : a_good (sel t m) (cat_gen false (sel t m) (if self then None else Some (oth t m)) (sch m))
+                  (fun r s' => r = A_SUCCESS /\
+                               content s' = content (sel t m) ++ (if self then asel t (abs m) else aoth t (abs m)) /\
+                               (false = true -> terminated s'))
+                  (fun r => r = A_OMEMORY)).
+    { eapply a_good_weaken; [|apply cat_gen_good; auto].
+      - intros r0 s' (? & ? & ?). rewrite asel_abs, aoth_abs. destruct self; auto.
+      - intros o Ho. destruct self; [discriminate|]. injection Ho as <-. auto.
+      - destruct self; exact Hok. }
+    finish_append Hm G.
+  - (* catf *)
+    destruct Hok as [Hok _].
+    pose proof (catv_good (sel t m) out (sch m) (Hsel t m Hm) Hok) as G.
+    apply (a_good_weaken _ _ _ (fun r s' => r = Z.of_N (len out) /\ content s' = content (sel t m) ++ out /\
+                                           (true = true -> terminated s'))) in G; [|intuition].
+    finish_append Hm G.
+  - (* rtrim *)
+    destruct (step_pure t m _ (fun _ => RVoid) _ Hm (rtrim_good (sel t m) set (Hsel t m Hm)))
+      as (a & s' & -> & Hi' & (Hc' & Hn' & HT)).
+    intros [= <- <- <-]. split; [now apply minv_upd|]. unfold step_terminates; cbn [term_target]; rewrite sel_upd. split.
+    + split; [discriminate|]. cbn [any_failed existsb spec_ok]. rewrite asel_abs, abs_upd, Hc'. auto.
+    + intros _ [H|H]; [discriminate|auto].
+  - (* rtrim_ *)
+    destruct (step_pure t m _ (fun _ => RVoid) _ Hm (rtrim__good (sel t m) set (Hsel t m Hm)))
+      as (a & s' & -> & Hi' & (Hc' & Hn' & HT)).
+    intros [= <- <- <-]. split; [now apply minv_upd|]. split; [|exact I].
+    split; [discriminate|]. cbn [any_failed existsb spec_ok]. rewrite asel_abs, abs_upd, Hc'. auto.
+  - (* ltrim *)
+    destruct (step_pure t m _ (fun _ => RVoid) _ Hm (ltrim_good (sel t m) set (Hsel t m Hm)))
+      as (a & s' & -> & Hi' & (Hc' & Hn' & HT)).
+    intros [= <- <- <-]. split; [now apply minv_upd|]. unfold step_terminates; cbn [term_target]; rewrite sel_upd. split.
+    + split; [discriminate|]. cbn [any_failed existsb spec_ok]. rewrite asel_abs, abs_upd, Hc'. auto.
+    + intros _ [H|H]; [discriminate|auto].
+  - (* ltrim_ *)
+    destruct (step_pure t m _ (fun _ => RVoid) _ Hm (ltrim__good (sel t m) set (Hsel t m Hm)))
+      as (a & s' & -> & Hi' & (Hc' & Hn' & HT)).
+    intros [= <- <- <-]. split; [now apply minv_upd|]. split; [|exact I].
+    split; [discriminate|]. cbn [any_failed existsb spec_ok]. rewrite asel_abs, abs_upd, Hc'. auto.
+  - (* trim *)
+    destruct (step_pure t m _ (fun _ => RVoid) _ Hm (trim_good (sel t m) set (Hsel t m Hm)))
+      as (a & s' & -> & Hi' & (Hc' & Hn' & HT)).
+    intros [= <- <- <-]. split; [now apply minv_upd|]. unfold step_terminates; cbn [term_target]; rewrite sel_upd. split.
+    + split; [discriminate|]. cbn [any_failed existsb spec_ok]. rewrite asel_abs, abs_upd, Hc'. auto.
+    + intros _ [H|H]; [discriminate|auto].
+  - (* trim_ *)
+    destruct (step_pure t m _ (fun _ => RVoid) _ Hm (trim__good (sel t m) set (Hsel t m Hm)))
+      as (a & s' & -> & Hi' & (Hc' & Hn' & HT)).
+    intros [= <- <- <-]. split; [now apply minv_upd|]. split; [|exact I].
+    split; [discriminate|]. cbn [any_failed existsb spec_ok]. rewrite asel_abs, abs_upd, Hc'. auto.
+  - (* utf *)
+    pose proof (utf_catc_good (sel t m) c (sch m) (Hsel t m Hm) Hok) as G.
+    apply (a_good_weaken _ _ _ (fun r s' => r = A_SUCCESS /\ content s' = content (sel t m) ++ utf_encode c /\
+                                           (true = true -> terminated s'))) in G; [|intuition].
+    finish_append Hm G.
+  - (* cmp *)
+    rewrite (cmp_spec _ _ (Hsel t m Hm) (Hoth t m Hm)). intros [= <- <- <-].
+    split; [assumption|]. split; [|exact I]. split; [discriminate|].
+    cbn [any_failed existsb spec_ok]. rewrite asel_abs, aoth_abs. auto.
+  - (* cmpn *)
+    rewrite (cmpn_spec _ _ (Hsel t m Hm)). intros [= <- <- <-].
+    split; [assumption|]. split; [|exact I]. split; [discriminate|].
+    cbn [any_failed existsb spec_ok]. rewrite asel_abs. auto.
+  - (* cmps *)
+    unfold cmps. rewrite (cmpn_spec _ _ (Hsel t m Hm)). intros [= <- <- <-].
+    split; [assumption|]. split; [|exact I]. split; [discriminate|].
+    cbn [any_failed existsb spec_ok]. rewrite asel_abs. auto.
+Qed.
+
+(* ================================================================== histories *)
+Definition good_step (x : mstate * op * (mstate * ret * list ev)) : Prop :=
+  let '(m0, o, (m1, r, e)) := x in
+  minv m0 /\ minv m1 /\ step_refines o m0 m1 r e /\ step_terminates o m0 m1 e.
+
+Theorem steps_good : forall ops m, minv m -> ops_ok ops m -> Forall good_step (steps ops m).
+Proof.
+  induction ops as [|o ops IH]; intros m Hm Hok; cbn [steps]; [constructor|].
+  destruct Hok as [Ho Hr]. destruct (step o m) as [[m1 r] e] eqn:Es. cbn [fst] in *.
+  destruct (step_good o m m1 r e Hm Ho Es) as (Hm1 & Href & Hterm).
+  constructor; [cbn; auto|]. apply IH; assumption.
+Qed.
+
+Lemma minv_init sc : minv (m_init sc).
+Proof. split; apply inv_init. Qed.
+
+Lemma run_fst ops : forall m, fst (run (ops) m) =
+  fold_left (fun m o => fst (fst (step o m))) ops m.
+Proof.
+  induction ops as [|o ops IH]; intros m; cbn [run fold_left]; [reflexivity|].
+  destruct (step o m) as [[m1 r] e]. specialize (IH m1). destruct (run ops m1). cbn [fst] in *. exact IH.
+Qed.
+
+Theorem run_inv : forall ops m, minv m -> ops_ok ops m -> minv (fst (run ops m)).
+Proof.
+  intros ops m. rewrite run_fst. revert m.
+  induction ops as [|o ops IH]; intros m Hm Hok; cbn [fold_left]; [assumption|].
+  destruct Hok as [Ho Hr]. destruct (step o m) as [[m1 r] e] eqn:Es. cbn [fst] in *.
+  apply IH; [|assumption]. now destruct (step_good o m m1 r e Hm Ho Es).
+Qed.
+
+(* ------------------------------------------------------------------ the clauses, unfolded *)
+Definition inv_step (x : mstate * op * (mstate * ret * list ev)) : Prop :=
+  let '(_, _, (m1, r, _)) := x in
+  (num (sA m1) <= mem (sA m1) /\ len (buf (sA m1)) = mem (sA m1)) /\
+  (num (sB m1) <= mem (sB m1) /\ len (buf (sB m1)) = mem (sB m1)) /\
+  r <> RFault.
+
+Theorem str_inv_all : forall sc ops, ops_ok ops (m_init sc) ->
+  Forall inv_step (steps ops (m_init sc)).
+Proof.
+  intros sc ops Hok. pose proof (steps_good ops (m_init sc) (minv_init sc) Hok) as H.
+  eapply Forall_impl; [|exact H]. intros [[m0 o] [[m1 r] e]] (_ & [(A1 & _ & A3) (B1 & _ & B3)] & [Hr _] & _).
+  cbn. auto.
+Qed.
+
+Definition refines_step (x : mstate * op * (mstate * ret * list ev)) : Prop :=
+  let '(m0, o, (m1, r, e)) := x in step_refines o m0 m1 r e.
+
+Theorem str_refines_all : forall sc ops, ops_ok ops (m_init sc) ->
+  Forall refines_step (steps ops (m_init sc)).
+Proof.
+  intros sc ops Hok. pose proof (steps_good ops (m_init sc) (minv_init sc) Hok) as H.
+  eapply Forall_impl; [|exact H]. intros [[m0 o] [[m1 r] e]] (_ & _ & Hr & _). exact Hr.
+Qed.
+
+Definition terminates_step (x : mstate * op * (mstate * ret * list ev)) : Prop :=
+  let '(m0, o, (m1, r, e)) := x in step_terminates o m0 m1 e.
+
+Theorem str_terminated_all : forall sc ops, ops_ok ops (m_init sc) ->
+  Forall terminates_step (steps ops (m_init sc)).
+Proof.
+  intros sc ops Hok. pose proof (steps_good ops (m_init sc) (minv_init sc) Hok) as H.
+  eapply Forall_impl; [|exact H]. intros [[m0 o] [[m1 r] e]] (_ & _ & _ & Ht). exact Ht.
+Qed.
+
+(* formatted append: exactly the formatter's text, and its length is returned *)
+Theorem catf_exact t out m m' r e :
+  minv m -> fits (sel t m) (len out + 1) -> len out < 2147483647 ->
+  step (OCatf t out) m = (m', r, e) -> any_failed e = false ->
+  r = RInt (Z.of_N (len out)) /\
+  content (sel t m') = content (sel t m) ++ out /\
+  content (oth t m') = content (oth t m) /\
+  terminated (sel t m').
+Proof.
+  intros Hm Hf Hl Hs He.
+  destruct (step_good (OCatf t out) m m' r e Hm (conj Hf Hl) Hs) as (Hm' & [_ Href] & Hterm).
+  rewrite He in Href. cbn [spec_ok] in Href. destruct Href as [-> Ha].
+  unfold step_terminates in Hterm. cbn [term_target] in Hterm.
+  split; [reflexivity|]. rewrite <- !asel_abs, <- !aoth_abs, Ha, asel_aupd, aoth_aupd. auto.
+Qed.
+
+(* ownership hand-over *)
+Theorem exit_handover s sc b0 : inv s -> fits s 1 -> ptr s = Some b0 ->
+  exists r s' sc' e, exit s sc = Some (r, s', sc', e) /\
+    (any_failed e = false ->
+       s' = str_init /\ exists blk, r = Some blk /\ take (num s + 1) blk = content s ++ [0] /\ num s < len blk) /\
+    (any_failed e = true -> r = None /\ inv s' /\ content s' = content s).
+Proof.
+  intros Hi Hf Hp. destruct (exit_good s sc b0 Hi Hf Hp) as (r & s' & sc' & e & Hx & Hi' & HP).
+  exists r, s', sc', e. split; [assumption|]. destruct (any_failed e).
+  - split; [discriminate|]. intros _. destruct HP. auto.
+  - split; [|discriminate]. intros _. exact HP.
+Qed.
+
+(* ------------------------------------------------------------------ lex_cmp is the lexicographic order *)
+Lemma lex_cmp_refl a : lex_cmp a a = 0%Z.
+Proof. induction a as [|x a IH]; cbn [lex_cmp]; [reflexivity|]. rewrite N.ltb_irrefl. exact IH. Qed.
+
+Lemma lex_cmp_eq a b : lex_cmp a b = 0%Z <-> a = b.
+Proof.
+  split; [|intros ->; apply lex_cmp_refl].
+  revert b. induction a as [|x a IH]; intros [|y b]; cbn [lex_cmp]; try discriminate; [reflexivity|].
+  destruct (x <? y) eqn:E1; [discriminate|]. destruct (y <? x) eqn:E2; [discriminate|].
+  intros H. f_equal; [lia|auto].
+Qed.
+
+Lemma lex_cmp_antisym a b : lex_cmp b a = (- lex_cmp a b)%Z.
+Proof.
+  revert b. induction a as [|x a IH]; intros [|y b]; cbn [lex_cmp]; try reflexivity.
+  destruct (x <? y) eqn:E1; destruct (y <? x) eqn:E2; try reflexivity; [lia|apply IH].
+Qed.
+
+Lemma lex_cmp_prefix a x t : lex_cmp a (a ++ x :: t) = (-1)%Z.
+Proof. induction a as [|y a IH]; cbn [lex_cmp app]; [reflexivity|]. rewrite N.ltb_irrefl. exact IH. Qed.
+
+Lemma lex_cmp_first_diff p x y a b : x < y -> lex_cmp (p ++ x :: a) (p ++ y :: b) = (-1)%Z.
+Proof.
+  intros H. induction p as [|z p IH]; cbn [lex_cmp app].
+  - replace (x <? y) with true by lia. reflexivity.
+  - rewrite N.ltb_irrefl. exact IH.
+Qed.
+
+Theorem cmp_sign_all l r d : inv l -> inv r ->
+  cmp l r = Some (lex_cmp (content l) (content r)) /\
+  cmpn l d = Some (lex_cmp (content l) d) /\
+  cmps l d = Some (lex_cmp (content l) (cstr d)).
+Proof.
+  intros Hl Hr. split; [now apply cmp_spec|]. split; [now apply cmpn_spec|].
+  unfold cmps. now apply cmpn_spec.
+Qed.
+
+Theorem lex_cmp_is_lexicographic :
+  (forall a b, lex_cmp a b = 0%Z <-> a = b) /\
+  (forall a b, lex_cmp b a = (- lex_cmp a b)%Z) /\
+  (forall a x t, lex_cmp a (a ++ x :: t) = (-1)%Z) /\
+  (forall p x y a b, x < y -> lex_cmp (p ++ x :: a) (p ++ y :: b) = (-1)%Z).
+Proof.
+  repeat split; intros; try (now apply lex_cmp_eq); auto using lex_cmp_antisym, lex_cmp_prefix, lex_cmp_first_diff.
+Qed.
+
+(* trimming removes the maximal prefix / suffix over the set *)
+Theorem strip_maximal f l :
+  (exists pre, l = pre ++ lstrip f l /\ forallb f pre = true /\
+               match lstrip f l with [] => True | x :: _ => f x = false end) /\
+  (exists suf, l = rstrip f l ++ suf /\ forallb f suf = true /\
+               match rev (rstrip f l) with [] => True | x :: _ => f x = false end).
+Proof. split; [apply lstrip_char|apply rstrip_char]. Qed.
+
+(* ------------------------------------------------------------------ the code as found *)
+Definition full8 : str := mkStr (Some [48;49;50;51;52;53;54;55]) 8 8.   (* after a_str_catn_(ctx, "01234567", 8) *)
+
+Lemma inv_full8 : inv full8.
+Proof. unfold inv, full8, buf; cbn. rewrite W64_val. repeat split; try lia. Qed.
+
+Theorem exit_orig_refuted : exists s, inv s /\ exit_orig s = None.
+Proof. exists full8. split; [apply inv_full8|reflexivity]. Qed.
+
+Definition abcdefg : str := mkStr (Some [97;98;99;100;101;102;103;0]) 7 8. (* after a_str_cats(ctx, "abcdefg") *)
+
+Theorem cat_self_orig_refuted : exists s, inv s /\ terminated s /\ cat_self_orig_uaf s [] = true.
+Proof.
+  exists abcdefg. split; [|split; [|reflexivity]].
+  - unfold inv, abcdefg, buf; cbn. rewrite W64_val. repeat split; try lia.
+  - unfold terminated, abcdefg, buf; cbn. split; [lia|reflexivity].
+Qed.
+
+(* without the size precondition a_size_up wraps and a "successful" reservation drops the block *)
+Theorem setm_wrap_refuted :
+  exists m o, minv m /\ ~ op_ok o m /\
+              let '(m', r, _) := step o m in r = RInt A_SUCCESS /\ ~ minv m'.
+Proof.
+  exists (mkM abcdefg str_init []), (OSetm TA 18446744073709551615).
+  split; [|split].
+  - split; [|apply inv_init]. unfold inv, abcdefg, buf; cbn. rewrite W64_val. repeat split; try lia.
+  - cbn. rewrite W64_val. lia.
+  - vm_compute. split; [reflexivity|]. intros [(H & _) _]. apply H. reflexivity.
+Qed.
+
+(* ------------------------------------------------------------------ non-vacuity *)
+Definition ex_ops : list op :=
+  [ OCatn_ TA [48;49;50;51;52;53;54;55];        (* fills the capacity exactly: num = mem = 8 *)
+    OCats TB [32;32;97;32;98;0;120];
+    OTrim TB [];
+    OCatf TB [65;66;67;68];                     (* does not fit: two-pass path *)
+    OCat TA false; OCat TA true;                (* append the other object, then itself *)
+    OUtf TA 8364; OGetc TA; OGetn TA true 2;
+    OSetn TA 3; OCmp TA; OSwap; OExit TA; OExit TB ].
+
+Example ex_ops_ok : ops_ok ex_ops (m_init []).
+Proof. cbn. rewrite W64_val. repeat split; vm_compute; reflexivity. Qed.
+
+Example ex_ops_ok_failing_allocator : ops_ok ex_ops (m_init [true; false; true; false]).
+Proof. cbn. rewrite W64_val. repeat split; vm_compute; reflexivity. Qed.
+
+Example ex_run :
+  map fst (snd (run ex_ops (m_init []))) =
+  [ RInt 0; RInt 0; RVoid; RInt 4; RInt 0; RInt 0; RInt 0; RInt (-84); RSize 2 [226;130];
+    RInt 0; RInt (-1); RVoid;
+    RPtr (Some [97;32;98;65;66;67;68;0;165;165;165;165;165;165;165;165]);
+    RPtr (Some [48;49;50;0;52;53;54;55;97;32;98;65;66;67;68;48;49;50;51;52;53;54;55;97;32;98;65;66;67;68;0;130;
+                172;0;165;165;165;165;165;165]) ].
+Proof. vm_compute. reflexivity. Qed.
+
+Example ex_exit_full : exists blk sc e,
+  exit full8 [] = Some (Some blk, str_init, sc, e) /\ take 9 blk = [48;49;50;51;52;53;54;55;0].
+Proof. vm_compute. do 3 eexists. split; reflexivity. Qed.
